@@ -3289,11 +3289,17 @@ func (r *Resolver) clearAdditional(req, resp *dns.Msg, extra ...bool) *dns.Msg {
 	shouldClearExtra := len(extra) == 0 || !extra[0]
 
 	if shouldClearExtra {
+		// The authority's client-subnet SCOPE is the one thing in its OPT the
+		// layers above need: it decides whether the answer may be shared or
+		// must be cached for the asking subnet only. Read it before the
+		// section is replaced by the request's OPT, whose subnet option
+		// always says SCOPE 0 ("global").
+		scope := responseSubnetScope(req, resp)
 		resp.Extra = []dns.RR{}
 
 		// Preserve EDNS0 if present
 		if opt := req.IsEdns0(); opt != nil {
-			resp.Extra = append(resp.Extra, opt)
+			resp.Extra = append(resp.Extra, optWithSubnetScope(opt, scope))
 		}
 	} else {
 		// The section is kept for root priming, which reads the name
@@ -3324,6 +3330,56 @@ func (r *Resolver) clearAdditional(req, resp *dns.Msg, extra ...bool) *dns.Msg {
 	}
 
 	return resp
+}
+
+// responseSubnetScope returns the SCOPE PREFIX-LENGTH the authority declared
+// for the client-subnet option this request carried, or 0 when there is none
+// to honour: no subnet was sent, the response has none, or the response's
+// option does not echo the family, source length and address that were sent
+// (RFC 7871 §7.3 — such a response must not be treated as tailored).
+func responseSubnetScope(req, resp *dns.Msg) uint8 {
+	sent := subnetOption(req.IsEdns0())
+	got := subnetOption(resp.IsEdns0())
+	if sent == nil || got == nil || got.SourceScope == 0 {
+		return 0
+	}
+	if got.Family != sent.Family || got.SourceNetmask != sent.SourceNetmask || !got.Address.Equal(sent.Address) {
+		return 0
+	}
+	return got.SourceScope
+}
+
+func subnetOption(opt *dns.OPT) *dns.EDNS0_SUBNET {
+	if opt == nil {
+		return nil
+	}
+	for _, o := range opt.Option {
+		if sub, ok := o.(*dns.EDNS0_SUBNET); ok {
+			return sub
+		}
+	}
+	return nil
+}
+
+// optWithSubnetScope returns opt with its client-subnet option carrying
+// scope. The request's OPT is shared with later sub-queries, so a non-zero
+// scope goes onto a copy, never onto opt itself.
+func optWithSubnetScope(opt *dns.OPT, scope uint8) *dns.OPT {
+	if scope == 0 {
+		return opt
+	}
+	out := *opt
+	out.Option = make([]dns.EDNS0, 0, len(opt.Option))
+	for _, o := range opt.Option {
+		if sub, ok := o.(*dns.EDNS0_SUBNET); ok {
+			scoped := *sub
+			scoped.SourceScope = scope
+			out.Option = append(out.Option, &scoped)
+			continue
+		}
+		out.Option = append(out.Option, o)
+	}
+	return &out
 }
 
 func (r *Resolver) equalServers(s1, s2 *authority.Servers) bool {
